@@ -103,7 +103,7 @@ Upd(s2, hv2, net2, e) == /\ st' = s2 /\ hv' = HvIssued(hv2, s2) /\ net' = net2 /
 \* the same for an operation with a step program: every state a crash could leave behind
 \* is kept in `mids` (hidden by the VIEW, judged by Inv_Crash)
 UpdS(steps, hv2, net2, e) == /\ st' = LastOr(steps, st) /\ hv' = HvIssued(hv2, LastOr(steps, st)) /\ net' = net2 /\ Log(e)
-                             /\ mids' = steps
+                             /\ mids' = steps /\ steps = steps
 Msg(sl, stage, amt, ttl, rout, rep) == [sl |-> sl, stage |-> stage, amt |-> amt, ttl |-> ttl, rout |-> rout, rep |-> rep]
 ChgSeq(sel) == IF sel.chg = 0 THEN <<>> ELSE <<sel.chg>>
 
